@@ -166,7 +166,7 @@ func (manager *TaskManager) Summary(out app.Output) (err error) {
 		if desc != "" {
 			out.Printf("\n'''%s'''\n\n", desc)
 		}
-		out.Printf(task.IOBroadcast().String())
+		out.Printf("%s", task.IOBroadcast().String())
 		out.Printf("\n\n")
 	}
 	return nil
